@@ -3,7 +3,7 @@
    PLAN (C05_start_releases_every_block, proof in HeapSpec.v) and THE DESCRIPTOR HALF FOR EVERY
    HISTORY AND EVERY FAULT PLAN (C05_history_restores_descriptor_table, proof in FdSpec.v); the
    child balance of whole histories under every fault plan is decided by the tie's fault enumeration. *)
-From Verif Require Import Lib Build OptSpec WorldSpec WorldSpec2 LibSpec LibSpec2 ParentSpec StartSpec HeapSpec FdSpec.
+From Verif Require Import Lib Build OptSpec WorldSpec WorldSpec2 LibSpec LibSpec2 ParentSpec StartSpec FdSpec HeapSpec MemSpec.
 Import Lib.
 From Coq Require Import Lia.
 Local Open Scope Z_scope.
@@ -170,6 +170,21 @@ Theorem C05_redirect_init_owns_what_destroy_closes : forall T own c stream rd nb
 Proof. exact F_redirect_init. Qed.
 Print Assumptions C05_redirect_init_owns_what_destroy_closes.
 
+(* MEMORY, EVERY HISTORY, EVERY FAULT PLAN: reproc_new, then any sequence of calls on the new
+   handle, then destroy: the caller's heap afterwards holds exactly the blocks it held before --
+   the handle block, every start's program-path and environment copies and every poll's scratch
+   array are released, each exactly once (a second release, or the release of a block the library
+   does not own, would change the live set or is refused by the ledger) *)
+Theorem C05_history_releases_memory : forall (ck : rp -> MW unit) ops w u w',
+  WorldSpec2.wf w -> 0 <= w_cur w -> w_cur w = w_main w -> 0 < w_next_blk w ->
+  (forall id, w_next_blk w <= id -> heap_live id w = false) ->
+  (forall q, kp (w_cur w) (ck q)) -> (forall q, hk true (ck q)) ->
+  (let* np := reproc_new in
+   match np with None => ret tt | Some p => let* p' := run_hops ck p ops in reproc_destroy p' end) w = Ret u w' ->
+  forall id, heap_live id w' = heap_live id w.
+Proof. exact history_releases_memory. Qed.
+Print Assumptions C05_history_releases_memory.
+
 (* non-vacuity: start with three pipes + wait + close + stop + destroy on the world above, without
    faults and with a failure injected into the start: the history runs to its end, the table had
    grown in between (four descriptors after the successful start), and is back to its one entry *)
@@ -185,11 +200,17 @@ Definition C05_ex_mid : bool :=
   match run_hops (fun _ => ret tt) (rp_new 1) [HStart (Some [[46; 47; 116]]) C05_ex_opts 0] (C05_ex_world []) with
   | Ret p' w' => (length (C05_ex_keys w') =? 4)%nat && (h_status p' =? STATUS_IN_PROGRESS)
   | _ => false end.
+Definition C05_ex_mem (faults : list (Z * positive)) : bool :=
+  match (let* np := reproc_new in
+         match np with None => ret tt | Some p => let* p' := run_hops (fun _ => ret tt) p C05_ex_ops in reproc_destroy p' end) (C05_ex_world faults) with
+  | Ret _ w' => forallb (fun id => Bool.eqb (heap_live id w') (id =? 1)) [1; 2; 3; 4; 5; 6; 7; 8; 9; 10; 11; 12; 13; 14; 15; 16]
+  | _ => false end.
 Example C05_ex_history :
-  fresh_handle (rp_new 1) /\ (forall q : rp, kp 7 (ret tt)) /\
+  fresh_handle (rp_new 1) /\ (forall q : rp, kp 7 (ret tt)) /\ (forall q : rp, hk true (ret tt)) /\
+  C05_ex_mem [] = true /\ C05_ex_mem [(0, 12%positive)] = true /\ C05_ex_mem [(28, 12%positive)] = true /\
   C05_ex_hist [] = true /\ C05_ex_hist [(27, 12%positive)] = true /\ C05_ex_hist [(3, 24%positive); (40, 4%positive)] = true /\ C05_ex_mid = true.
 Proof.
-  split; [apply fresh_rp_new|]. split; [intros _; apply kp_ret|]. repeat split; vm_compute; reflexivity.
+  split; [apply fresh_rp_new|]. split; [intros _; apply kp_ret|]. split; [intros _; apply hk_ret|]. repeat split; vm_compute; reflexivity.
 Qed.
 
 Example C05_ex : redirect_destroy_closes REPROC_REDIRECT_PIPE = true /\ redirect_destroy_closes REPROC_REDIRECT_HANDLE = false.
